@@ -177,6 +177,17 @@ class TableOps:
                     if v[0] == "bin" and v[1] in ("Add", "AddUnchecked") and (v[2] == old or v[3] == old):
                         amt = v[3] if v[2] == old else v[2]
                         return add(st, ("top", "add", tb, kind, target, amt))
+                    # `match count.checked_sub(n) { Some(rest) if rest > 0 => *count = rest, _ => remove }`
+                    cs = v
+                    if cs[0] == "field" and cs[1][0] == "variant" and cs[1][2] == "Some":
+                        cs = cs[1][1]
+                    if cs is not v and cs[0] == "call" and cs[2].startswith("core::num::") and cs[2].endswith("::checked_sub") and len(cs[3]) == 2 and cs[3][0] == old:
+                        amt = cs[3][1]
+                        nonzero = any(h[0] == "cmp" and h[2] == v and is_const(h[3], 0) and ((h[1] == "Ne" and h[4]) or (h[1] == "Eq" and not h[4]) or (h[1] == "Gt" and h[4]) or (h[1] == "Le" and not h[4])) for h in st.flags) \
+                            or mentions(v, lambda x: x[0] == "call" and x[2].startswith("core::num::NonZero"))
+                        if not nonzero:
+                            eng.violate("SYM-4", "may-store-zero", "a link count is written back after subtraction without proof that it is non-zero (entries with count 0 keep a table non-empty forever)", ev.b, st)
+                        return add(st, ("top", "sub", tb, kind, target, amt))
                     eng.violate("SYM-4", "link-count-overwritten", "a link count in the table of %s is overwritten with %s instead of being adjusted" % (show(tb), show(v)[:80]), ev.b, st)
                     return None
         for f in st.flags:
@@ -558,6 +569,12 @@ class ApiSpec:
         if n in ("Rc::ptr_eq", "Weak::ptr_eq"):
             b2 = self.boxes[2][1] if 2 in self.boxes else None
             ok = v[0] == "bin" and v[1] == "Eq" and {v[2], v[3]} == {b, b2}
+
+            def unref(x):
+                return x[1] if x[0] == "ref" else x
+            if not ok and v[0] == "call" and len(v[3]) == 2 and v[2] in ("core::ptr::eq", "core::ptr::addr_eq", "core::cmp::PartialEq::eq") or (v[0] == "call" and len(v[3]) == 2 and v[2].endswith("::eq") and v[2].startswith("core::ptr::")):
+                # ptr::eq(a, b), or `==` on the NonNull / raw pointers themselves (address equality of thin pointers)
+                ok = {unref(v[3][0]), unref(v[3][1])} == {b, b2}
             if not ok:
                 eng.violate("API-1", "%s:not-pointer-equality" % n, "%s is not equality of the two allocation addresses (%s)" % (n, show(v)[:80]), ev.b, st)
             return None
